@@ -12,7 +12,7 @@ OBS.append(Ob(['C09', 'C03', 'C16', 'C07'], 'md_key', 'mpd', 'harness/mpd.c', 'h
     desc='readKey == reference: only str formats, exact length for fixstr (0..31) / str8 / str16 / str32, truncation => IncompleteInput, bytes verbatim', bound='all 256 first bytes x all continuations up to 20 bytes x every truncation length'))
 UNITS += [Unit('mpd_dd', 'wrappers/mpd.cpp', defs=['ARENA_N=4', 'ARENA_CHUNK=64', 'ARDUINOJSON_POOL_CAPACITY=4', 'ARDUINOJSON_INITIAL_POOL_COUNT=2'])]
 for pl in (2, 5):
-    OBS.append(Ob(['C06', 'C14', 'C09'], 'dedup_msgpack_pre%d' % pl, 'mpd_dd', 'harness/dedup.c', 'h_dedup', defs=['UNIT_H="mpd_dd.h"', 'MSGPACK=1', 'PRELEN=%d' % pl], unwind=14, cap=300, hunwind=12, fs=512,
+    OBS.append(Ob(['C06', 'C14', 'C09', 'C03'], 'dedup_msgpack_pre%d' % pl, 'mpd_dd', 'harness/dedup.c', 'h_dedup', defs=['UNIT_H="mpd_dd.h"', 'MSGPACK=1', 'PRELEN=%d' % pl], unwind=14, cap=300, hunwind=12, fs=512,
         desc='deserializing fixstr "ab\\0cd" into a pool holding one string of %d symbolic bytes: full length kept, shared iff identical, reference count exact (StringBuffer::save / StringPool)' % pl,
         bound='all values of the %d bytes of the pre-existing string' % pl))
 UNITS += [Unit('mpd_cont', 'wrappers/mpd.cpp', defs=MPD, cuts={'CUT_MPV': r'MsgPackDeserializerI7VReaderE12parseVariantINS1_14AllowAllFilterE', 'CUT_ADD_ELEMENT': r'9ArrayData10addElementEPNS1_15ResourceManagerE$',
